@@ -88,6 +88,8 @@ struct HScript {
     hold: bool,
     panic_at: Option<u32>,
     big: bool,
+    /// use the endpoint that drops its RequestContext before working
+    nocx: bool,
 }
 
 struct Shared {
@@ -182,8 +184,24 @@ async fn handler_ep(
     rqctx: RequestContext<Arc<Shared>>,
     path: Path<IdPath>,
 ) -> Result<Response<Body>, HttpError> {
+    work(rqctx.context().clone(), path.into_inner().id).await
+}
+
+/// The same handler written the way an endpoint may be written: it clones
+/// what it needs out of its RequestContext and drops the context before its
+/// long work.
+#[endpoint { method = GET, path = "/d/{id}" }]
+async fn handler_nocx_ep(
+    rqctx: RequestContext<Arc<Shared>>,
+    path: Path<IdPath>,
+) -> Result<Response<Body>, HttpError> {
     let sh = rqctx.context().clone();
     let id = path.into_inner().id;
+    drop(rqctx);
+    work(sh, id).await
+}
+
+async fn work(sh: Arc<Shared>, id: u32) -> Result<Response<Body>, HttpError> {
     let sc = sh.scripts.get(&id).cloned().unwrap_or_default();
     let mut g = Guard { sh: sh.clone(), id, armed: true };
     sh.push(Ev::Start(id));
@@ -310,7 +328,7 @@ impl Scenario {
                     Client::DuringResp { read } => json!({"k": "duringresp", "read": read}),
                 };
                 json!({"id": r.id, "client": c, "min_ticks": r.h.min_ticks, "tick_ms": r.h.tick_ms,
-                       "hold": r.h.hold, "panic_at": r.h.panic_at, "big": r.h.big})
+                       "hold": r.h.hold, "panic_at": r.h.panic_at, "big": r.h.big, "nocx": r.h.nocx})
             }).collect::<Vec<_>>(),
         })
     }
@@ -340,6 +358,7 @@ impl Scenario {
                     hold: r.get("hold").and_then(|x| x.as_bool()).unwrap_or(false),
                     panic_at: r.get("panic_at").and_then(|x| x.as_u64()).map(|x| x as u32),
                     big: r.get("big").and_then(|x| x.as_bool()).unwrap_or(false),
+                    nocx: r.get("nocx").and_then(|x| x.as_bool()).unwrap_or(false),
                 },
             });
         }
@@ -359,6 +378,10 @@ fn is_full(r: &Req) -> bool {
 }
 fn stays(r: &Req) -> bool {
     matches!(r.client, Client::Stay)
+}
+
+fn path_for(r: &Req) -> String {
+    format!("/{}/{}", if r.h.nocx { "d" } else { "h" }, r.id)
 }
 
 const LONG: Duration = Duration::from_secs(60);
@@ -395,7 +418,7 @@ fn read_and_log(sh: &Shared, c: &mut Conn, id: u32, big: bool) {
 
 fn run_client_h1(sh: &Shared, addr: SocketAddr, r: &Req, notes: &Mutex<Vec<String>>) {
     let id = r.id;
-    let bytes = request("GET", &format!("/h/{}", id), &[], None);
+    let bytes = request("GET", &path_for(r), &[], None);
     let mut c = match Conn::open(addr) {
         Ok(c) => c,
         Err(_) => {
@@ -529,10 +552,10 @@ enum Sender {
     H1(H1Sender),
 }
 impl Sender {
-    fn send(&mut self, id: u32) -> RespFut {
+    fn send(&mut self, path: &str) -> RespFut {
         let req = hyper::Request::builder()
             .method("GET")
-            .uri(format!("http://localhost/h/{}", id))
+            .uri(format!("http://localhost{}", path))
             .header("host", "localhost")
             .body(Empty::<Bytes>::new())
             .unwrap();
@@ -625,7 +648,7 @@ async fn run_client_async(
         match transport {
             Transport::Tls => {
                 if let Some(mut tls) = connect_tls(addr).await {
-                    let bytes = request("GET", &format!("/h/{}", id), &[], None);
+                    let bytes = request("GET", &path_for(r), &[], None);
                     let cut = if *headers { bytes.len() - 2 } else { 9.min(bytes.len() - 4) };
                     let _ = tls.write_all(&bytes[..cut]).await;
                     let _ = tls.flush().await;
@@ -709,7 +732,7 @@ async fn run_client_async(
     match &r.client {
         Client::Cut { .. } => unreachable!(),
         Client::Stay => {
-            let fut = sender.send(id);
+            let fut = sender.send(&path_for(r));
             read_and_log_async(sh, fut, id, r.h.big).await;
             drop(sender);
             if let Some(t) = task {
@@ -718,13 +741,13 @@ async fn run_client_async(
             }
         }
         Client::SendClose { how } => {
-            let fut = sender.send(id);
+            let fut = sender.send(&path_for(r));
             // let the connection task put the request on the wire (or not)
             tokio::time::sleep(Duration::from_millis(3)).await;
             leave!(how, fut);
         }
         Client::AfterStart { ticks, how } => {
-            let fut = sender.send(id);
+            let fut = sender.send(&path_for(r));
             let want = *ticks as usize;
             let seen = wait_log(sh, MID, |l| {
                 l.contains(&Ev::Start(id))
@@ -738,7 +761,7 @@ async fn run_client_async(
             leave!(how, fut);
         }
         Client::DuringResp { read } => {
-            let fut = sender.send(id);
+            let fut = sender.send(&path_for(r));
             let want = (*read).min(BIG / 2);
             let body = tokio::time::timeout(LONG, async {
                 let resp = fut.await.ok()?;
@@ -794,7 +817,7 @@ fn run_scenario(sc: &Scenario) -> Outcome {
         scripts.insert(r.id, r.h.clone());
     }
     if let Some(p) = sc.probe {
-        scripts.insert(p, HScript { min_ticks: 1, tick_ms: 5, hold: false, panic_at: None, big: false });
+        scripts.insert(p, HScript { min_ticks: 1, tick_ms: 5, hold: false, panic_at: None, big: false, nocx: false });
     }
     let sh = Arc::new(Shared {
         log: Mutex::new(vec![]),
@@ -808,6 +831,7 @@ fn run_scenario(sc: &Scenario) -> Outcome {
     let server = runtime.block_on(async {
         let mut api = ApiDescription::new();
         api.register(handler_ep).unwrap();
+        api.register(handler_nocx_ep).unwrap();
         let mut config = ConfigDropshot::default();
         config.bind_address = "127.0.0.1:0".parse().unwrap();
         config.default_request_body_max_bytes = 1024;
@@ -967,6 +991,9 @@ fn line_for(sc: &Scenario, out: &Outcome, group: &'static str) -> Line {
         if r.h.panic_at.is_some() {
             tags.push("handler:panics".into());
         }
+        if r.h.nocx {
+            tags.push("handler:context-dropped".into());
+        }
         // what the run actually exhibited for this request
         let t = &out.trace;
         let pos = |e: Ev| t.iter().position(|x| *x == e);
@@ -1008,10 +1035,10 @@ fn line_for(sc: &Scenario, out: &Outcome, group: &'static str) -> Line {
 // -------------------------------------------------------------- generation
 
 fn hold(min_ticks: u32, tick_ms: u64) -> HScript {
-    HScript { min_ticks, tick_ms, hold: true, panic_at: None, big: false }
+    HScript { min_ticks, tick_ms, hold: true, panic_at: None, big: false, nocx: false }
 }
 fn free(min_ticks: u32, tick_ms: u64) -> HScript {
-    HScript { min_ticks, tick_ms, hold: false, panic_at: None, big: false }
+    HScript { min_ticks, tick_ms, hold: false, panic_at: None, big: false, nocx: false }
 }
 
 /// the single-request scenarios: every disconnect point by itself
@@ -1040,6 +1067,9 @@ fn singles(detached: bool, transport: Transport) -> Vec<Scenario> {
             one(Client::DuringResp { read: 4096 }, HScript { big: true, ..free(2, 10) }, true);
             one(Client::Stay, HScript { panic_at: Some(2), ..free(5, 10) }, true);
             one(Client::AfterStart { ticks: 1, how: How::Drop }, HScript { panic_at: Some(6), ..hold(1, 10) }, true);
+            // an endpoint that dropped its RequestContext before working
+            one(Client::AfterStart { ticks: 2, how: How::Drop }, HScript { nocx: true, ..hold(1, 10) }, true);
+            one(Client::Stay, HScript { nocx: true, ..free(3, 10) }, false);
         }
         // over HTTP/2 How::Half = reset the stream and keep the connection,
         // anything else = drop the connection; over TLS every way of leaving
@@ -1056,6 +1086,7 @@ fn singles(detached: bool, transport: Transport) -> Vec<Scenario> {
             one(Client::AfterStart { ticks: 2, how: How::Drop }, free(40, 10), false);
             one(Client::DuringResp { read: 4096 }, HScript { big: true, ..free(2, 10) }, true);
             one(Client::Stay, HScript { panic_at: Some(2), ..free(5, 10) }, true);
+            one(Client::AfterStart { ticks: 2, how: How::Drop }, HScript { nocx: true, ..hold(1, 10) }, true);
         }
     }
     v
@@ -1089,6 +1120,7 @@ fn mixed(rng: &mut Rng, detached: bool, k: usize, with_panic: bool, transport: T
         } else {
             (Client::AfterStart { ticks: rng.range(0, 2) as u32, how: How::Drop }, free(rng.range(2, 30) as u32, tick))
         };
+        let h = HScript { nocx: rng.chance(1, 4), ..h };
         reqs.push(Req { id, client, h });
     }
     // at least one staying and one leaving client when there is room
